@@ -20,7 +20,7 @@ func c01Layers(c *Ctx) []sweepLayer {
 	if c.Thorough() {
 		return []sweepLayer{
 			{"L0", GenOpts{}, 0, all},
-			{"L1", GenOpts{OneGate: true}, 1, all},
+			{"L1", GenOpts{OneGate: true}, 1, append(append([]Flags{}, coveringFlags8(ns)...), empties...)}, // was: all 133 flag sets - with the grammar of round 4 the tier took over 50 minutes
 			{"L2", GenOpts{OneGate: true, LeafSet: 2}, 2, cov},
 			{"L3", GenOpts{OneGate: true, LeafSet: 2, Reps: true}, 3, four},
 			{"scale", GenOpts{Scale: true, ScaleThorough: true}, 0, coveringFlags8(ns)},
